@@ -67,6 +67,8 @@ mod error;
 mod regret;
 mod solve;
 mod split;
+#[cfg(feature = "verif-hooks")]
+pub mod verif;
 
 use compact::{Builder, OptBuilder};
 pub use error::{GameError, SolveError, StratError};
@@ -745,6 +747,14 @@ impl<I, A> Game<I, A> {
     pub fn num_infosets(&self) -> usize {
         let [one, two] = &self.player_infosets;
         one.len() + two.len()
+    }
+}
+
+#[cfg(feature = "verif-hooks")]
+impl<I, A> Game<I, A> {
+    /// Dump the compact representation of this game (verification only)
+    pub fn verif_dump(&self) -> verif::Dump {
+        verif::dump(self)
     }
 }
 
